@@ -87,6 +87,8 @@ pub enum TopOp
     WorldUnitSpawned(u8, u32),
     /// `Commands::syscall_with_validation` (false) / `Commands::syscall_once_with_validation` (true) + flush
     CmdSyscallV(u32, bool),
+    /// the same two through `EntityCommands` (the same keys again)
+    EntCmdSyscallV(u32, bool),
     /// mutate the plain resource the ordinary system watches through Bevy change detection
     Touch,
 }
@@ -631,9 +633,14 @@ fn run_inner(case: &SysCase, out: &mut SysOutcome)
                 else { model.unit_count += 1; model.effects.push(ExpEffect::Unit(*x, model.unit_count)); }
                 model.hit("C17:entity_commands_syscall");
             }
-            TopOp::CmdSyscallV(x, once) =>
+            TopOp::CmdSyscallV(x, once) | TopOp::EntCmdSyscallV(x, once) =>
             {
-                if *once { world.commands().syscall_once_with_validation(*x, unit_once_sys, validate); }
+                if matches!(op, TopOp::EntCmdSyscallV(..))
+                {
+                    if *once { world.commands().entity(plain_entity).syscall_once_with_validation(*x, unit_once_sys, validate); }
+                    else { world.commands().entity(plain_entity).syscall_with_validation(*x, unit_sys, validate); }
+                }
+                else if *once { world.commands().syscall_once_with_validation(*x, unit_once_sys, validate); }
                 else { world.commands().syscall_with_validation(*x, unit_sys, validate); }
                 world.flush();
                 if *once { model.effects.push(ExpEffect::Validated); model.effects.push(ExpEffect::UnitOnce(*x, 1)); }
@@ -768,10 +775,11 @@ pub fn decode(bytes: &[u8], max_ops: usize) -> SysCase
     let mut case = SysCase::default();
     for _ in 0..n
     {
-        let op = match d.below(23)
+        let op = match d.below(24)
         {
             21 | 22 => TopOp::Touch,
             20 => { d.next_x += 1; TopOp::CmdSyscallV(d.next_x, d.byte() & 1 == 1) }
+            23 => { d.next_x += 1; TopOp::EntCmdSyscallV(d.next_x, d.byte() & 1 == 1) }
             18 => { d.next_x += 1; TopOp::WorldUnitSyscall(d.next_x) }
             19 => { d.next_x += 1; TopOp::WorldUnitSpawned(d.below(3) as u8, d.next_x) }
             17 => { d.next_x += 1; TopOp::EntCmdSyscall(d.next_x, d.byte() & 1 == 1) }
